@@ -7,7 +7,9 @@ use super::syntax::{E, Member};
 use std::collections::HashMap;
 
 #[derive(Clone, Copy, Debug, PartialEq, Eq)]
-pub enum V { Null, Bool(bool), Int(i32), Ref(usize) }
+/// `Unk`: a value the specification leaves open (U3: result of the built-in array `set`); storing,
+/// passing and discarding it is fine, observing it makes the case Unspecified
+pub enum V { Null, Bool(bool), Int(i32), Ref(usize), Unk }
 
 #[derive(Clone, Debug, PartialEq, Eq)]
 pub enum Status { Ok, Fail, Unspec }
@@ -37,7 +39,7 @@ pub struct RefResult {
 }
 
 pub enum Stop { Fail(String), Unspec(String) }
-type R<T> = Result<T, Stop>;
+pub type R<T> = Result<T, Stop>;
 fn fail<T>(s: &str) -> R<T> { Err(Stop::Fail(s.to_string())) }
 fn unspec<T>(s: &str) -> R<T> { Err(Stop::Unspec(s.to_string())) }
 
@@ -199,7 +201,7 @@ impl<'a> Interp<'a> {
         self.allocs.push(match &o {
             Obj::Array(c) => Alloc::Array(c.len()),
             Obj::Object { parent, fields, methods } => {
-                let pk = match parent { V::Null => "null", V::Int(_) => "int", V::Bool(_) => "bool",
+                let pk = match parent { V::Null => "null", V::Int(_) => "int", V::Bool(_) => "bool", V::Unk => "unknown",
                     V::Ref(i) => match &self.heap[*i] { Obj::Array(_) => "array", Obj::Object { .. } => "object" } };
                 Alloc::Object(pk, fields.iter().map(|f| f.0.to_string()).collect(), methods.iter().map(|m| m.name.to_string()).collect())
             }
@@ -334,6 +336,7 @@ impl<'a> Interp<'a> {
             }
             Array(n, init) => {
                 let nv = self.ev(n, fr, globals)?;
+                if nv == V::Unk { return unspec("U3 value of built-in set observed") }
                 let size_ok = matches!(nv, V::Int(i) if i >= 0);
                 if is_pure_path(init) {
                     if !size_ok {
@@ -388,6 +391,7 @@ impl<'a> Interp<'a> {
             }
             Object(p, ms) => {
                 let parent = match p { Some(p) => self.ev(p, fr, globals)?, None => V::Null };
+                if parent == V::Unk { return unspec("U3 value of built-in set observed") }
                 let mut fields: Vec<(&'a str, V)> = vec![];
                 let mut methods: Vec<Method<'a>> = vec![];
                 for m in ms {
@@ -418,6 +422,7 @@ impl<'a> Interp<'a> {
             FSet(o, f, v) => {
                 let ov = self.ev(o, fr, globals)?;
                 let vv = self.ev(v, fr, globals)?;
+                if ov == V::Unk { return unspec("U3 value of built-in set observed") }
                 let i = match ov { V::Ref(i) => i, _ => return fail("not an object") };
                 match &mut self.heap[i] {
                     Obj::Object { fields, .. } => match fields.iter_mut().find(|x| x.0 == f.as_str()) {
@@ -452,6 +457,7 @@ impl<'a> Interp<'a> {
     }
 
     fn as_object(&self, v: V) -> R<&Obj<'a>> {
+        if v == V::Unk { return unspec("U3 value of built-in set observed") }
         if let V::Ref(i) = v { if let Obj::Object { .. } = &self.heap[i] { return Ok(&self.heap[i]) } }
         fail("not an object")
     }
@@ -477,6 +483,7 @@ impl<'a> Interp<'a> {
         let mut hops = 0usize;
         loop {
             match cur {
+                V::Unk => return unspec("U3 value of built-in set observed"),
                 V::Null => return null_builtin(name, &args),
                 V::Bool(x) => return bool_builtin(x, name, &args),
                 V::Int(n) => return int_builtin(n, name, &args),
@@ -538,6 +545,7 @@ impl<'a> Interp<'a> {
             V::Null => out.push_str("null"),
             V::Bool(x) => out.push_str(if x { "true" } else { "false" }),
             V::Int(i) => out.push_str(&i.to_string()),
+            V::Unk => return unspec("U3 value of built-in set observed"),
             V::Ref(i) => {
                 if path.contains(&i) { return unspec("cyclic print") }
                 if out.len() > self.fuel.output { return unspec("U9 output") }
@@ -578,7 +586,8 @@ impl<'a> Interp<'a> {
     }
 }
 
-fn null_builtin(name: &str, args: &[V]) -> R<V> {
+pub fn null_builtin(name: &str, args: &[V]) -> R<V> {
+    if args.contains(&V::Unk) { return unspec("U3 value of built-in set observed") }
     if args.len() != 1 { return fail("builtin arity") }
     match name {
         "==" | "eq" => Ok(V::Bool(args[0] == V::Null)),
@@ -587,7 +596,8 @@ fn null_builtin(name: &str, args: &[V]) -> R<V> {
     }
 }
 
-fn bool_builtin(x: bool, name: &str, args: &[V]) -> R<V> {
+pub fn bool_builtin(x: bool, name: &str, args: &[V]) -> R<V> {
+    if args.contains(&V::Unk) { return unspec("U3 value of built-in set observed") }
     if args.len() != 1 { return fail("builtin arity") }
     let a = args[0];
     match name {
@@ -600,6 +610,7 @@ fn bool_builtin(x: bool, name: &str, args: &[V]) -> R<V> {
 }
 
 pub fn int_builtin(n: i32, name: &str, args: &[V]) -> R<V> {
+    if args.contains(&V::Unk) { return unspec("U3 value of built-in set observed") }
     if args.len() != 1 { return fail("builtin arity") }
     let a = args[0];
     let sym = match name {
@@ -637,7 +648,8 @@ pub fn int_builtin(n: i32, name: &str, args: &[V]) -> R<V> {
     })
 }
 
-fn array_builtin(cells: &mut Vec<V>, name: &str, args: &[V]) -> R<V> {
+pub fn array_builtin(cells: &mut Vec<V>, name: &str, args: &[V]) -> R<V> {
+    if !args.is_empty() && args[0] == V::Unk { return unspec("U3 value of built-in set observed") }
     let index = |v: V| -> R<usize> {
         match v { V::Int(i) if i >= 0 && (i as usize) < cells.len() => Ok(i as usize), _ => fail("index") }
     };
@@ -651,7 +663,7 @@ fn array_builtin(cells: &mut Vec<V>, name: &str, args: &[V]) -> R<V> {
             if args.len() != 2 { return fail("builtin arity") }
             let i = index(args[0])?;
             cells[i] = args[1];
-            Ok(args[1]) // U3: the value of the built-in set is unspecified; universes use it in statement position
+            Ok(V::Unk) // U3: the value of the built-in set is unspecified
         }
         _ => fail("no such method on array"),
     }
